@@ -6,7 +6,7 @@
 (* WordArith; failures are accumulated (line, index) so that one run       *)
 (* reports every event that does not satisfy its definition.               *)
 (***************************************************************************)
-EXTENDS Ntt, Json, IOUtils
+EXTENDS Batch, Json, IOUtils
 
 Rec == ndJsonDeserialize(IOEnv.TRACE)
 
@@ -26,6 +26,7 @@ FailRows(m, rows, i, ln) ==
 Failures(r, ln) ==
   CASE r.ev = "small" -> FailRows(r.m, r.rows, 1, ln)
     [] r.ev = "big"   -> FailIdx(r.facts, 1, ln)
+    [] r.ev = "batch" -> IF BatchEventOk(r) THEN <<>> ELSE << <<ln, 1>> >>
     [] OTHER -> << <<ln, 0>> >>
 
 TInit == l = 1 /\ bad = <<>>
